@@ -23,7 +23,9 @@ enum { DEC_META, DEC_PAGEHDR, DEC_RLE_ALL, DEC_RLE_LEVELS, DEC_RLE_PREFIXED, DEC
 static const char* DNAME[NDEC] = { "thrift-file-metadata", "thrift-page-header", "rle-decode-all", "rle-decode-levels", "rle-decode-levels-prefixed", "rle-stream-decoder", "plain", "delta-int32", "delta-int64",
                                    "delta-length-byte-array", "delta-byte-array", "byte-stream-split", "dictionary", "snappy", "lz4", "gzip", "zstd" };
 static const int BW[] = { 0, 1, 2, 3, 7, 8, 9, 15, 16, 17, 31, 32, 33, 64, 255 };
-static const int CNT[] = { 0, 1, 7, 8, 9, 33 };
+static const int CNT_SMALL[] = { 0, 1, 7, 8, 9, 33 };
+static const int CNT_BIG[] = { 1023, 1024, 1025, 1500, 2048, 2049, 4095, 4096, 4097, 5000 };      /* around internal tile / scratch sizes */
+static const int* CNT = CNT_SMALL;
 static int g_bw_n = 15, g_cnt_n = 6;
 static char g_cur[200];
 
@@ -278,6 +280,22 @@ static void enumerate(void) {
     token_sequences(DEC_META, TOK_THRIFT, 30, TL, 0x8500, NULL, 0); token_sequences(DEC_PAGEHDR, TOK_THRIFT, 30, TL, 0x8501, NULL, 0);
     token_sequences(DEC_PLAIN, TOK_PLAIN, 10, TL, 0x8600, NULL, 0);
     token_sequences(DEC_GZIP, TOK_LZ4, 18, 2, 0x8700, "\x1f\x8b\x08\x00\x00\x00\x00\x00\x00\x03", 10); token_sequences(DEC_ZSTD, TOK_LZ4, 18, 2, 0x8701, "\x28\xb5\x2f\xfd", 4);
+    /* requested counts around the decoders' internal tile and scratch sizes (1024, 4096), on inputs long enough to be decoded */
+    mc_stage("large-counts.valid-streams");
+    { CNT = CNT_BIG; g_cnt_n = 10; int save_bw = g_bw_n; g_bw_n = 4; ref_buf b; ref_buf_init(&b); char nm[64];
+      for (int ci = 0; ci < 10; ci++) { int cnt = CNT_BIG[ci];
+          /* RLE hybrid: one run of cnt, and cnt bit-packed values (bit width is the first byte for the dictionary decoders) */
+          for (int form = 0; form < 2; form++) for (int bw = 1; bw <= 2; bw++) { ref_buf_clear(&b); if (form == 0) { ref_buf_uleb(&b, (uint64_t)cnt << 1); ref_buf_u8(&b, 1); } else { int ng = (cnt + 7) / 8; ref_buf_uleb(&b, ((uint64_t)ng << 1) | 1); for (int i = 0; i < ng * bw; i++) ref_buf_u8(&b, 0x55); }
+              snprintf(nm, sizeof nm, "large:%s-of-%d;bw=%d", form ? "bit-packed" : "rle-run", cnt, bw);
+              for (int d = DEC_RLE_ALL; d <= DEC_RLE_STREAM; d++) { if (d == DEC_RLE_PREFIXED) { ref_buf p; ref_buf_init(&p); ref_buf_u32le(&p, (uint32_t)b.n); ref_buf_put(&p, b.p, b.n); one(d, p.p, p.n, nm, mc_mix(0x8a1, ((uint64_t)ci << 8) | (uint64_t)(form * 4 + bw))); ref_buf_free(&p); } else one(d, b.p, b.n, nm, mc_mix(0x8a1, ((uint64_t)ci << 8) | (uint64_t)(form * 4 + bw)));  }
+              ref_buf p; ref_buf_init(&p); ref_buf_u8(&p, (uint8_t)bw); ref_buf_put(&p, b.p, b.n); one(DEC_DICT, p.p, p.n, nm, mc_mix(0x8a2, ((uint64_t)ci << 8) | (uint64_t)(form * 4 + bw))); ref_buf_free(&p); }
+          /* byte stream split and plain: cnt x 17 bytes of input serve every width */
+          ref_buf_clear(&b); for (int i = 0; i < cnt * 17; i++) ref_buf_u8(&b, (uint8_t)(i * 7)); snprintf(nm, sizeof nm, "large:%d-values", cnt); one(DEC_BSS, b.p, b.n, nm, mc_mix(0x8a3, (uint64_t)ci)); one(DEC_PLAIN, b.p, b.n, nm, mc_mix(0x8a4, (uint64_t)ci));
+          /* delta: a ramp with one outlier per block, from the reference encoder */
+          { int64_t* v = malloc(sizeof(int64_t) * (size_t)cnt); for (int i = 0; i < cnt; i++) v[i] = (int64_t)i * 3 + ((i % 128) == 5 ? 1000 : 0); ref_delta_opts o; memset(&o, 0, sizeof o); o.block_size = 128; o.miniblocks = 4; o.bits = 64; ref_buf_clear(&b); ref_delta_encode(v, cnt, &o, &b); free(v);
+            one(DEC_DELTA32, b.p, b.n, nm, mc_mix(0x8a5, (uint64_t)ci)); one(DEC_DELTA64, b.p, b.n, nm, mc_mix(0x8a6, (uint64_t)ci)); }
+      }
+      CNT = CNT_SMALL; g_cnt_n = 6; g_bw_n = save_bw; ref_buf_free(&b); }
     mc_stage("mutation-balls-around-valid-encodings");
     seeds_and_balls();
     mc_stage("nesting-depth-and-payload-free-counts");
